@@ -6,7 +6,7 @@ import ast
 
 from ..astutil import call_name, calls_in, dotted, name_stores, test_atoms, unparse, walk_local
 from ..cfg import no_exc
-from ..report import Registry, sub
+from ..report import Registry, sub, chain
 from ._helpers_rules_c import (
     PathSense, _ann_class, both, call_nodes, calls_ending, cut_edges, cut_normal_out, is_false, is_true,
     kw_or_pos, loc_of, must_pass, outcome, own_calls, rcfg, test_edges,
@@ -44,7 +44,7 @@ CHR = "engine/characteristics.py"
 
 # ---------------------------------------------------------------------- C24-R1 (shared with C26-R5)
 def finalize_fairy_reset(ctx):
-    f = _nf(ctx, f"{POOL}::_finalize_fairy", "checkin", "_reset", "invalidate", alias="dotted")
+    f = _nf(ctx, f"{POOL}::_finalize_fairy", "checkin", "_reset", "invalidate")
     g = rcfg(ctx, f)
     ps = PathSense(g)
     ctx.require(len(f.params) >= 2, "_finalize_fairy lost its (dbapi_connection, connection_record) parameters")
@@ -317,7 +317,7 @@ def r4(ctx):
                   + " (a characteristic that is applied may never be reset)",
                   "partial(_reset_characteristics, <the collection being applied>)", f.loc)
     # checkin drains the callbacks before returning the record
-    fc = _nf(ctx, f"{POOL}::_ConnectionRecord.checkin", "_return_conn", alias=None)
+    fc = _nf(ctx, f"{POOL}::_ConnectionRecord.checkin", "_return_conn", alias="dotted")
     gc_ = ctx.cfg(fc)
     ret = calls_ending(gc_, "_return_conn")
     ctx.require(ret, "no _return_conn() call in _ConnectionRecord.checkin")
@@ -611,7 +611,7 @@ def _reset_claims(ctx):
     res = []
     for fi in {id(x[0]): x[0] for x in uniq}.values():
         keep = {(call_name(c) or "?").rsplit(".", 1)[-1] for f2, c, v in uniq if f2 is fi}
-        nf = normal_form(ctx, fi, keep=keep | {"close"}, alias="dotted", inline=False)
+        nf = normal_form(ctx, fi, keep=keep | {"close"}, alias="dotted")
         for c in calls_in(nf.node):
             for k in c.keywords:
                 if k.arg in CLAIM_KEYWORDS:
@@ -622,6 +622,23 @@ def _reset_claims(ctx):
                         continue
                     res.append((nf, c, v))
     return res
+
+
+def _known_when_true(fi, g, bnodes, name, depth=0):
+    """Atoms implied by the local `name` being true at the claim: the conjunctive atoms common to all of its
+    non-False definitions.  A definition evaluated after the backing call says nothing about the state the call
+    saw; a definition that merely copies another local (`flag = was_active`) carries that local's knowledge."""
+    defs = [(v, st) for nm, v, st in name_stores(fi.node) if nm == name and v is not None]
+    live = [(v, st) for v, st in defs if not is_false(v)]
+    per_def = []
+    for v, st in live:
+        if isinstance(v, ast.Name) and depth < 3:
+            per_def.append({(v.id, True)} | _known_when_true(fi, g, bnodes, v.id, depth + 1))
+            continue
+        dn = g.nodes_for(st)
+        after = any(d in g.reachable(bnodes, include_starts=False) for d in dn)
+        per_def.append(set() if (is_true(v) or after) else set(test_atoms(v, True)))
+    return set.intersection(*per_def) if per_def else set()
 
 
 # floor: today 4 instances (1 claim site + 3 bypass branches); only the claim-site instance is mandatory -- the
@@ -687,15 +704,7 @@ def r6(ctx):
                     facts.add((txt, p))
                     if not (p and txt.isidentifier()):
                         continue
-                    defs = [(v, st) for nm, v, st in name_stores(fi.node) if nm == txt and v is not None]
-                    live = [(v, st) for v, st in defs if not is_false(v)]
-                    per_def = []
-                    for v, st in live:
-                        dn = g.nodes_for(st)
-                        after = any(d in g.reachable(bnodes, include_starts=False) for d in dn)
-                        per_def.append(set() if (is_true(v) or after) else set(test_atoms(v, True)))
-                    if per_def:
-                        facts |= set.intersection(*per_def)
+                    facts |= _known_when_true(fi, g, bnodes, txt)
     for key, (msg, loc) in sorted(chain.partial.items()):
         ctx.violation(key, msg + " although the caller tells the pool the transaction was reset", loc)
     for key, s in sorted(chain.skips.items()):
@@ -873,3 +882,132 @@ R.mutant("close-special-without-transaction-close-2", ENG,
 R.mutant("close-claims-reset-for-inactive-transaction", ENG,
          sub("            skip_reset = self._transaction.is_active\n            self._transaction.close()\n",
              "            skip_reset = True\n            self._transaction.close()\n"), "C24-R6")
+
+# ---------------------------------------------------------------------- rob-A: behaviour-preserving refactorings
+# (families of the stored benign/rfA_4, rfA_5 + variants; the rules analyse the normal form, see _helpers_rob_a)
+_RB_BRANCH = (
+    "            if transaction_was_reset:\n"
+    "                if self._echo:\n"
+    "                    pool.logger.debug(\n"
+    "                        \"Connection %s reset, transaction already reset\",\n"
+    "                        self.dbapi_connection,\n"
+    "                    )\n"
+    "            else:\n"
+    "                if self._echo:\n"
+    "                    pool.logger.debug(\n"
+    "                        \"Connection %s rollback-on-return\",\n"
+    "                        self.dbapi_connection,\n"
+    "                    )\n"
+    "                pool._dialect.do_rollback(self)\n"
+)
+R.mutant("benign-rob-reset-rollback-branch-extracted", POOL,
+         chain(sub("        if pool._reset_on_return is reset_rollback:\n" + _RB_BRANCH + "        elif pool._reset_on_return is reset_commit:\n",
+                   "        reset_style = pool._reset_on_return\n        if reset_style is reset_rollback:\n"
+                   "            self._rollback_on_return(pool, transaction_was_reset)\n        elif reset_style is reset_commit:\n"),
+               sub("    def _reset(\n        self,\n        pool: Pool,\n",
+                   "    def _rollback_on_return(self, pool: Pool, already_reset: bool) -> None:\n"
+                   + _RB_BRANCH.replace("            ", "        ", 1).replace("\n            ", "\n        ").replace("if transaction_was_reset", "if already_reset")
+                   + "\n    def _reset(\n        self,\n        pool: Pool,\n")), None)
+# ... the same extraction with the rollback dropped for the echo-less case is seen through
+R.mutant("rob-reset-rollback-helper-only-when-echo", POOL,
+         chain(sub("        if pool._reset_on_return is reset_rollback:\n" + _RB_BRANCH + "        elif pool._reset_on_return is reset_commit:\n",
+                   "        if pool._reset_on_return is reset_rollback:\n            self._rollback_on_return(pool, transaction_was_reset)\n"
+                   "        elif pool._reset_on_return is reset_commit:\n"),
+               sub("    def _reset(\n        self,\n        pool: Pool,\n",
+                   "    def _rollback_on_return(self, pool: Pool, already_reset: bool) -> None:\n"
+                   "        if not already_reset and self._echo:\n"
+                   "            pool.logger.debug(\"Connection %s rollback-on-return\", self.dbapi_connection)\n"
+                   "            pool._dialect.do_rollback(self)\n\n"
+                   "    def _reset(\n        self,\n        pool: Pool,\n")), "C24-R2")
+R.mutant("benign-rob-reset-asyncio-guard-inverted", POOL,
+         sub("        if not asyncio_safe:\n            return\n\n        if pool._reset_on_return is reset_rollback:\n" + _RB_BRANCH
+             + "        elif pool._reset_on_return is reset_commit:\n            if self._echo:\n                pool.logger.debug(\n"
+               "                    \"Connection %s commit-on-return\",\n                    self.dbapi_connection,\n                )\n"
+               "            pool._dialect.do_commit(self)\n",
+             "        if asyncio_safe:\n            style = pool._reset_on_return\n            if style is reset_commit:\n"
+             "                if self._echo:\n                    pool.logger.debug(\"Connection %s commit-on-return\", self.dbapi_connection)\n"
+             "                pool._dialect.do_commit(self)\n            elif style is reset_rollback:\n"
+             + _RB_BRANCH.replace("\n            ", "\n                ").replace("            if transaction_was_reset", "                if transaction_was_reset", 1)), None)
+_CLOSE_OLD = (
+    "        if self._transaction:\n"
+    "            # a transaction that is inactive but still attached (its COMMIT\n"
+    "            # failed) is closed without a ROLLBACK; tell the pool the\n"
+    "            # connection was reset only if a rollback was really emitted\n"
+    "            skip_reset = self._transaction.is_active\n"
+    "            self._transaction.close()\n"
+    "        else:\n"
+    "            skip_reset = False\n"
+    "\n"
+    "        if self._dbapi_connection is not None:\n"
+    "            conn = self._dbapi_connection\n"
+    "\n"
+    "            # as we just closed the transaction, close the connection\n"
+    "            # pool connection without doing an additional reset\n"
+    "            if skip_reset:\n"
+    "                cast(\"_ConnectionFairy\", conn)._close_special(\n"
+    "                    transaction_reset=True\n"
+    "                )\n"
+    "            else:\n"
+    "                conn.close()\n"
+)
+R.mutant("benign-rob-close-aliases-inverted", ENG,
+         sub(_CLOSE_OLD,
+             "        trans = self._transaction\n        if not trans:\n            was_reset = False\n        else:\n"
+             "            was_reset = trans.is_active\n            trans.close()\n\n"
+             "        fairy = self._dbapi_connection\n        if fairy is not None:\n"
+             "            if was_reset:\n                cast(\"_ConnectionFairy\", fairy)._close_special(transaction_reset=True)\n"
+             "            else:\n                fairy.close()\n"), None)
+# early exit when there is no pooled connection; transaction part first through a helper returning the flag
+R.mutant("benign-rob-close-transaction-part-extracted", ENG,
+         chain(sub(_CLOSE_OLD,
+                   "        skip_reset = self._close_transaction()\n\n        if self._dbapi_connection is not None:\n"
+                   "            conn = self._dbapi_connection\n            if skip_reset:\n"
+                   "                cast(\"_ConnectionFairy\", conn)._close_special(\n                    transaction_reset=True\n                )\n"
+                   "            else:\n                conn.close()\n"),
+               sub("    def close(self) -> None:\n        \"\"\"Close this :class:`_engine.Connection`.\n",
+                   "    def _close_transaction(self) -> bool:\n        if not self._transaction:\n            return False\n"
+                   "        was_active = self._transaction.is_active\n        self._transaction.close()\n        return was_active\n\n"
+                   "    def close(self) -> None:\n        \"\"\"Close this :class:`_engine.Connection`.\n")), None)
+# ... and the helper that forgets to close the transaction but still answers True is seen through
+R.mutant("rob-close-transaction-helper-does-not-close", ENG,
+         chain(sub(_CLOSE_OLD,
+                   "        skip_reset = self._close_transaction()\n\n        if self._dbapi_connection is not None:\n"
+                   "            conn = self._dbapi_connection\n            if skip_reset:\n"
+                   "                cast(\"_ConnectionFairy\", conn)._close_special(\n                    transaction_reset=True\n                )\n"
+                   "            else:\n                conn.close()\n"),
+               sub("    def close(self) -> None:\n        \"\"\"Close this :class:`_engine.Connection`.\n",
+                   "    def _close_transaction(self) -> bool:\n        if not self._transaction:\n            return False\n"
+                   "        return True\n\n"
+                   "    def close(self) -> None:\n        \"\"\"Close this :class:`_engine.Connection`.\n")), "C24-R3")
+_HANDLER = ("            pool.logger.error(\n                \"Exception during reset or similar\", exc_info=True\n            )\n"
+            "            if connection_record:\n                connection_record.invalidate(e=e)\n")
+R.mutant("benign-rob-finalize-reset-failure-helper", POOL,
+         chain(sub(_HANDLER, "            _reset_failed(pool, connection_record, e)\n"),
+               sub("def _finalize_fairy(\n",
+                   "def _reset_failed(pool: Pool, rec: Optional[_ConnectionRecord], err: BaseException) -> None:\n"
+                   "    pool.logger.error(\"Exception during reset or similar\", exc_info=True)\n"
+                   "    if rec:\n        rec.invalidate(e=err)\n\n\ndef _finalize_fairy(\n")), None)
+R.mutant("rob-finalize-reset-failure-helper-only-logs", POOL,
+         chain(sub(_HANDLER, "            _reset_failed(pool, connection_record, e)\n"),
+               sub("def _finalize_fairy(\n",
+                   "def _reset_failed(pool: Pool, rec: Optional[_ConnectionRecord], err: BaseException) -> None:\n"
+                   "    pool.logger.error(\"Exception during reset or similar\", exc_info=True)\n\n\ndef _finalize_fairy(\n")), "C24-R1")
+R.mutant("benign-rob-finalize-live-flag", POOL,
+         sub("    if dbapi_connection is not None:\n        if connection_record and echo:\n",
+             "    live = dbapi_connection is not None\n    if live:\n        if connection_record and echo:\n"), None)
+_DRAIN = ("        while self.finalize_callback:\n            finalizer = self.finalize_callback.pop()\n"
+          "            if connection is not None:\n                finalizer(connection)\n")
+R.mutant("benign-rob-checkin-drain-helper", POOL,
+         chain(sub(_DRAIN + "        if pool.dispatch.checkin:\n", "        self._run_finalizers(connection)\n        if pool.dispatch.checkin:\n"),
+               sub("    def checkin(self, _fairy_was_created: bool = True) -> None:\n",
+                   "    def _run_finalizers(self, dbapi_conn: Optional[DBAPIConnection]) -> None:\n"
+                   "        callbacks = self.finalize_callback\n        while callbacks:\n            fn = callbacks.pop()\n"
+                   "            if dbapi_conn is None:\n                continue\n            fn(dbapi_conn)\n\n"
+                   "    def checkin(self, _fairy_was_created: bool = True) -> None:\n")), None)
+R.mutant("benign-rob-characteristics-register-helper", DEF,
+         chain(sub(_REGISTER, "        self._register_reset(connection, characteristics)\n"),
+               sub("    def _set_connection_characteristics(self, connection, characteristics):\n",
+                   "    def _register_reset(self, conn, names):\n"
+                   "        record = conn.connection._connection_record\n"
+                   "        record.finalize_callback.append(\n            functools.partial(self._reset_characteristics, names)\n        )\n\n"
+                   "    def _set_connection_characteristics(self, connection, characteristics):\n")), None)
